@@ -16,7 +16,7 @@ tests=ok; go test -vet=off -count=1 ./... >/tmp/benign-$id.tests 2>&1 || tests=F
 cd /verif
 git -C /repo apply $out/patch.diff || exit 3
 /verif/check $prop quick > /tmp/benign-$id.check 2>&1; rc=$?
-git -C /repo checkout -- .
+git -C /repo apply -R $out/patch.diff 2>/dev/null; git -C /repo checkout -- .; git -C /repo clean -fdq
 classes=$(grep -E "^violation:" /tmp/benign-$id.check | sed -E 's/violation: class=([^ ]+) key=(.*) runs=([0-9]+).*/\1{\2} x\3/' | paste -sd';')
 trouble=$(grep -E "TROUBLE" /tmp/benign-$id.check | head -2 | cut -c1-300)
 python3 - "$id" "$prop" "$build" "$tests" "$rc" "$classes" "$trouble" <<'PY'
